@@ -9,6 +9,7 @@ import (
 	"fmt"
 	"os"
 	"runtime/debug"
+	"runtime/pprof"
 	"sort"
 	"strings"
 	"time"
@@ -116,7 +117,7 @@ func RunSeed(base uint64, i int) uint64 { return verifrt.MixN(verifrt.Mix(base, 
 // hang (an unbounded loop or a deadlock in the code under test, or in the
 // harness): the worker records it and exits, since a goroutine cannot be
 // killed; the driver restarts the worker after that run.
-var RunTimeout = 30 * time.Second
+var RunTimeout = 90 * time.Second
 
 var errHang = fmt.Errorf("run exceeded the per-run wall-clock limit")
 
@@ -318,6 +319,13 @@ func RunParsed(e Engine) {
 					w.Flush()
 				}
 				fmt.Fprintf(os.Stderr, "worker: run %d (seed %d) hung\n", i, rs)
+				// what everybody was doing, for the harness author
+				if *out != "" {
+					if sf, err := os.Create(*out + ".stacks"); err == nil {
+						pprof.Lookup("goroutine").WriteTo(sf, 2)
+						sf.Close()
+					}
+				}
 				os.Exit(5)
 			}
 		} else if len(res.Violations) > 0 {
